@@ -3,9 +3,11 @@ import Pixman.Spec.Fill
 import Pixman.Lemmas.Fill
 import Pixman.Lemmas.FillSimd
 import Pixman.Lemmas.FillPattern
+import Pixman.Lemmas.FillBlt
+import Pixman.Props.C05
 /-! C19 — blt, fill and fill_boxes affect exactly the rectangle and agree with compositing. -/
 namespace Pixman.Props.C19
-open Pixman.Model.Fill Pixman.Spec.Fill Pixman.Lemmas.Fill Pixman.Lemmas.FillSimd Pixman.Lemmas.FillPattern
+open Pixman.Model.Fill Pixman.Spec.Fill Pixman.Lemmas.Fill Pixman.Lemmas.FillSimd Pixman.Lemmas.FillPattern Pixman.Lemmas.FillBlt
 
 /-! ## pixman_fill1_line -/
 
@@ -418,6 +420,118 @@ theorem simdBlt_declines (rowProg : Int → Int → Nat → List Store) (al : In
   · rw [if_pos h1]
   · rw [if_neg h1, if_neg (by omega)]
 
+/-- the row loop of a SIMD blt copies exactly the rectangle -/
+theorem bltRows_exact (rowProg : Int → Int → Nat → List Store)
+    (hprog : ∀ (al d : Int) (W B : Nat), (B = 2 ∨ B = 4) → (B : Int) ∣ al + d → B ∣ W →
+      Done al d W B (rowProg al d W))
+    (al : Int) (hal : (4 : Int) ∣ al) (B : Nat) (hB : B = 2 ∨ B = 4) (src m : Mem) (w h : Nat)
+    (s0 d0 ssB dsB sbits sstride dbits dstride sx sy dx dy : Int)
+    (hd0 : (B : Int) ∣ d0) (hds : (B : Int) ∣ dsB)
+    (hsd : ∀ r : Nat, d0 + r * dsB = rowStart dbits dstride (8 * B) dx dy r * B)
+    (hss : ∀ r : Nat, s0 + r * ssB = rowStart sbits sstride (8 * B) sx sy r * B) :
+    CopiedExactly src.bit m.bit (bltRows rowProg al src (B * w) ssB dsB h m s0 d0).bit sbits sstride
+      dbits dstride (8 * B) sx sy dx dy w h := by
+  intro i
+  have h2 : ∀ z : Int, (B : Int) ∣ z → (2 : Int) ∣ z := by
+    intro z hz; rcases hB with rfl | rfl <;> omega
+  have hT : ∀ d : Int, (2 : Int) ∣ d → Tiles d (rowProg al d (B * w)) (d + (B * w : Nat)) := by
+    intro d hd
+    have h2w : 2 ∣ B * w := by rcases hB with rfl | rfl <;> omega
+    exact (hprog al d (B * w) 2 (Or.inl rfl) (by omega) h2w).tiles
+  obtain ⟨R1, R2⟩ := bltRows_bit rowProg al src (B * w) ssB dsB hT (h2 _ hds) i h m s0 d0 (h2 _ hd0)
+  have cov : ∀ r : Nat, (d0 + r * dsB ≤ i / 8 ∧ i / 8 < d0 + r * dsB + (B * w : Nat)) ↔
+      (rowStart dbits dstride (8 * B) dx dy r ≤ i / ((8 * B : Nat) : Int) ∧
+        i / ((8 * B : Nat) : Int) < rowStart dbits dstride (8 * B) dx dy r + w) := by
+    intro r
+    rw [hsd r]
+    generalize rowStart dbits dstride (8 * B) dx dy r = rs
+    rcases hB with rfl | rfl <;> omega
+  constructor
+  · intro hn
+    apply R1
+    rintro ⟨r, hr, hc⟩
+    exact hn ⟨r, hr, (cov r).1 hc⟩
+  · intro r hr hc hlater
+    rw [R2 r hr ((cov r).2 hc) (fun r' h1 h2' hc' => hlater r' h1 h2' ((cov r').1 hc')), hsd r, hss r]
+    generalize rowStart dbits dstride (8 * B) dx dy r = rd
+    generalize rowStart sbits sstride (8 * B) sx sy r = rs
+    congr 1
+    rcases hB with rfl | rfl <;> omega
+
+/-- `sse2_blt` / `mmx_blt` (`rowProg` = the row program of either) for equal depths 16 or 32:
+TRUE, and the destination is the old one with exactly the rectangle copied from the source buffer —
+every offset, width, height, pair of strides (also negative), every alignment -/
+theorem simdBlt_exact (rowProg : Int → Int → Nat → List Store)
+    (hprog : ∀ (al d : Int) (W B : Nat), (B = 2 ∨ B = 4) → (B : Int) ∣ al + d → B ∣ W →
+      Done al d W B (rowProg al d W))
+    (al : Int) (hal : (4 : Int) ∣ al) (src dst : Mem) (sb db ss ds : Int) (bpp : Nat)
+    (sx sy dx dy : Int) (w h : Nat) (hb : bpp = 16 ∨ bpp = 32) :
+    (simdBlt rowProg al src dst sb db ss ds bpp bpp sx sy dx dy w h).1 = true ∧
+    CopiedExactly src.bit dst.bit (simdBlt rowProg al src dst sb db ss ds bpp bpp sx sy dx dy w h).2.bit
+      sb ss db ds bpp sx sy dx dy w h := by
+  unfold simdBlt
+  rw [if_neg (by simp), if_pos hb]
+  refine ⟨rfl, ?_⟩
+  simp only []
+  rcases hb with rfl | rfl
+  · exact bltRows_exact rowProg hprog al hal 2 (Or.inl rfl) src dst w h _ _ _ _ sb ss db ds sx sy dx dy
+      (Int.dvd_mul_left _ _) (Int.dvd_mul_left _ _)
+      (fun r => by
+        unfold rowStart
+        have c : ((32 / (8 * 2) : Nat) : Int) = 2 := by decide
+        have c1 : ((16 / 8 : Nat) : Int) = 2 := by decide
+        rw [c]; try rw [c1]
+        have d : ds * 4 / 2 = ds * 2 := by omega
+        have d4 : (4 : Int) / 2 = 2 := by decide
+        rw [d, d4]; grind)
+      (fun r => by
+        unfold rowStart
+        have c : ((32 / (8 * 2) : Nat) : Int) = 2 := by decide
+        have c1 : ((16 / 8 : Nat) : Int) = 2 := by decide
+        rw [c]; try rw [c1]
+        have d : ss * 4 / 2 = ss * 2 := by omega
+        have d4 : (4 : Int) / 2 = 2 := by decide
+        rw [d, d4]; grind)
+  · exact bltRows_exact rowProg hprog al hal 4 (Or.inr rfl) src dst w h _ _ _ _ sb ss db ds sx sy dx dy
+      (Int.dvd_mul_left _ _) (Int.dvd_mul_left _ _)
+      (fun r => by
+        unfold rowStart
+        have c : ((32 / (8 * 4) : Nat) : Int) = 1 := by decide
+        have c1 : ((32 / 8 : Nat) : Int) = 4 := by decide
+        rw [c]; try rw [c1]
+        have d : ds * 4 / 4 = ds := by omega
+        have d4 : (4 : Int) / 4 = 1 := by decide
+        rw [d, d4]; grind)
+      (fun r => by
+        unfold rowStart
+        have c : ((32 / (8 * 4) : Nat) : Int) = 1 := by decide
+        have c1 : ((32 / 8 : Nat) : Int) = 4 := by decide
+        rw [c]; try rw [c1]
+        have d : ss * 4 / 4 = ss := by omega
+        have d4 : (4 : Int) / 4 = 1 := by decide
+        rw [d, d4]; grind)
+
+/-- `sse2_blt` copies exactly the rectangle -/
+theorem sse2Blt_exact (al : Int) (hal : (4 : Int) ∣ al) (src dst : Mem) (sb db ss ds : Int) (bpp : Nat)
+    (sx sy dx dy : Int) (w h : Nat) (hb : bpp = 16 ∨ bpp = 32) :
+    (sse2Blt al src dst sb db ss ds bpp bpp sx sy dx dy w h).1 = true ∧
+    CopiedExactly src.bit dst.bit (sse2Blt al src dst sb db ss ds bpp bpp sx sy dx dy w h).2.bit
+      sb ss db ds bpp sx sy dx dy w h :=
+  simdBlt_exact sse2BltRow (fun al d W B hB => sse2BltRow_done al d W B hB) al hal src dst sb db ss ds
+    bpp sx sy dx dy w h hb
+
+/-- `mmx_blt` copies exactly the rectangle -/
+theorem mmxBlt_exact (al : Int) (hal : (4 : Int) ∣ al) (src dst : Mem) (sb db ss ds : Int) (bpp : Nat)
+    (sx sy dx dy : Int) (w h : Nat) (hb : bpp = 16 ∨ bpp = 32) :
+    (mmxBlt al src dst sb db ss ds bpp bpp sx sy dx dy w h).1 = true ∧
+    CopiedExactly src.bit dst.bit (mmxBlt al src dst sb db ss ds bpp bpp sx sy dx dy w h).2.bit
+      sb ss db ds bpp sx sy dx dy w h :=
+  simdBlt_exact mmxBltRow (fun al d W B hB => mmxBltRow_done al d W B hB) al hal src dst sb db ss ds
+    bpp sx sy dx dy w h hb
+
+example := sse2Blt_exact 8 ⟨2, rfl⟩ (.init fun i => i.toNat) (.init fun _ => 0) 5 9 7 (-6) 16 3 1 11 2 33 3
+  (Or.inl rfl)
+
 /-! ## the delegation chain -/
 
 /-- every implementation's `fill` either accepts or leaves the memory as it was -/
@@ -577,6 +691,80 @@ theorem implementationBlt_false_unchanged (al : Int) (chain : List Impl) (s d : 
         exact ih d hr
     all_goals exact ih d hr
 
+/-- a declining SIMD blt leaves the destination as it was -/
+theorem simdBlt_false_unchanged (rowProg : Int → Int → Nat → List Store) (al : Int) (s d : Mem)
+    (sb db ss ds : Int) (sbpp dbpp : Nat) (sx sy dx dy : Int) (w h : Nat)
+    (hr : (simdBlt rowProg al s d sb db ss ds sbpp dbpp sx sy dx dy w h).1 = false) :
+    (simdBlt rowProg al s d sb db ss ds sbpp dbpp sx sy dx dy w h).2 = d := by
+  revert hr; unfold simdBlt
+  by_cases h1 : sbpp ≠ dbpp
+  · rw [if_pos h1]; intro _; rfl
+  · rw [if_neg h1]
+    by_cases h2 : sbpp = 16 ∨ sbpp = 32
+    · rw [if_pos h2]; intro hr; cases hr
+    · rw [if_neg h2]; intro _; rfl
+
+/-- an accepting SIMD blt had equal depths of 16 or 32 bits -/
+theorem simdBlt_true (rowProg : Int → Int → Nat → List Store) (al : Int) (src dst : Mem)
+    (sb db ss ds : Int) (sbpp dbpp : Nat) (sx sy dx dy : Int) (w h : Nat)
+    (hr : (simdBlt rowProg al src dst sb db ss ds sbpp dbpp sx sy dx dy w h).1 = true) :
+    sbpp = dbpp ∧ (sbpp = 16 ∨ sbpp = 32) := by
+  by_cases h1 : sbpp ≠ dbpp
+  · rw [simdBlt_declines _ _ _ _ _ _ _ _ _ _ _ _ _ _ _ _ (Or.inl h1)] at hr; cases hr
+  · by_cases h2 : sbpp = 16 ∨ sbpp = 32
+    · exact ⟨by omega, h2⟩
+    · rw [simdBlt_declines _ _ _ _ _ _ _ _ _ _ _ _ _ _ _ _ (Or.inr (by omega))] at hr; cases hr
+
+/-- **pixman_blt** on any implementation chain, source and destination in different buffers: TRUE
+means equal depths (16 or 32) and the destination is the old one with exactly the rectangle copied;
+FALSE means nothing changed (`implementationBlt_false_unchanged`) -/
+theorem pixmanBlt_true_exact (al : Int) (hal : (4 : Int) ∣ al) (chain : List Impl) (s d : Mem)
+    (sb db ss ds : Int) (sbpp dbpp : Nat) (sx sy dx dy : Int) (w h : Nat)
+    (hr : (pixmanBlt al chain s d sb db ss ds sbpp dbpp sx sy dx dy w h).1 = true) :
+    sbpp = dbpp ∧ (sbpp = 16 ∨ sbpp = 32) ∧
+    CopiedExactly s.bit d.bit (pixmanBlt al chain s d sb db ss ds sbpp dbpp sx sy dx dy w h).2.bit
+      sb ss db ds sbpp sx sy dx dy w h := by
+  unfold pixmanBlt at hr ⊢
+  induction chain with
+  | nil => cases hr
+  | cons imp rest ih =>
+    unfold implementationBlt at hr ⊢
+    cases imp <;> simp only [Impl.blt] at hr ⊢
+    case sse2 =>
+      by_cases h1 : (sse2Blt al s d sb db ss ds sbpp dbpp sx sy dx dy w h).1 = true
+      · rw [if_pos h1]
+        obtain ⟨e, hb⟩ := simdBlt_true sse2BltRow al s d sb db ss ds sbpp dbpp sx sy dx dy w h h1
+        subst e
+        exact ⟨rfl, hb, (sse2Blt_exact al hal s d sb db ss ds sbpp sx sy dx dy w h hb).2⟩
+      · rw [if_neg h1] at hr ⊢
+        have h2 : (sse2Blt al s d sb db ss ds sbpp dbpp sx sy dx dy w h).1 = false := by
+          cases hh : (sse2Blt al s d sb db ss ds sbpp dbpp sx sy dx dy w h).1 <;> simp_all
+        have h3 : (sse2Blt al s d sb db ss ds sbpp dbpp sx sy dx dy w h).2 = d :=
+          simdBlt_false_unchanged sse2BltRow al s d sb db ss ds sbpp dbpp sx sy dx dy w h h2
+        rw [h3] at hr ⊢
+        exact ih hr
+    case mmx =>
+      by_cases h1 : (mmxBlt al s d sb db ss ds sbpp dbpp sx sy dx dy w h).1 = true
+      · rw [if_pos h1]
+        obtain ⟨e, hb⟩ := simdBlt_true mmxBltRow al s d sb db ss ds sbpp dbpp sx sy dx dy w h h1
+        subst e
+        exact ⟨rfl, hb, (mmxBlt_exact al hal s d sb db ss ds sbpp sx sy dx dy w h hb).2⟩
+      · rw [if_neg h1] at hr ⊢
+        have h2 : (mmxBlt al s d sb db ss ds sbpp dbpp sx sy dx dy w h).1 = false := by
+          cases hh : (mmxBlt al s d sb db ss ds sbpp dbpp sx sy dx dy w h).1 <;> simp_all
+        have h3 : (mmxBlt al s d sb db ss ds sbpp dbpp sx sy dx dy w h).2 = d :=
+          simdBlt_false_unchanged mmxBltRow al s d sb db ss ds sbpp dbpp sx sy dx dy w h h2
+        rw [h3] at hr ⊢
+        exact ih hr
+    all_goals exact ih hr
+
+/-- no implementation of the chain copies without MMX/SSE2: `pixman_blt` declines -/
+theorem pixmanBlt_fast_declines (al : Int) (s d : Mem) (sb db ss ds : Int) (sbpp dbpp : Nat)
+    (sx sy dx dy : Int) (w h : Nat) :
+    pixmanBlt al (chainOf ["ssse3", "sse2", "mmx"]) s d sb db ss ds sbpp dbpp sx sy dx dy w h = (false, d) := by
+  have : chainOf ["ssse3", "sse2", "mmx"] = [.noop, .fast, .general] := by decide
+  rw [this]; rfl
+
 /-! ## pixman_image_fill_boxes: operator reduction, rect → box -/
 
 /-- the operator reduction: CLEAR is SRC with the zero colour, OVER with an opaque colour is SRC,
@@ -592,6 +780,170 @@ theorem reduceOp_cases (op : Nat) (c : Color) :
   · rintro rfl h; simp [h]
   · rintro rfl h; simp [h]
   · intro h1 h2; by_cases h : c.alpha = 0xffff <;> simp [h, h1, h2]
+
+/-- the region the direct-fill shortcut fills is exactly (union of the boxes) ∩ image bounds ∩ clip
+— the intersection with the bounds is what d5a0451 added.  (Region algebra: C05.) -/
+theorem fillRegion_exact (img : Image) (boxes : List Pixman.Region.Box)
+    (hr : ∀ b ∈ boxes, Pixman.Region.BoxInRange Pixman.Region.c32 b)
+    (hw : (img.width : Int) ≤ 2147483647) (hh : (img.height : Int) ≤ 2147483647)
+    (hclip : ∀ c, img.clip = some c → Pixman.Region.Canon c) :
+    ∃ reg, fillRegion img boxes = some reg ∧ Pixman.Region.Canon reg ∧
+      ∀ x y : Int, reg.Mem x y ↔
+        (Pixman.Region.MemL boxes x y ∧ (0 ≤ x ∧ x < img.width ∧ 0 ≤ y ∧ y < img.height) ∧
+          ∀ c, img.clip = some c → c.Mem x y) := by
+  obtain ⟨a1, a2, a3⟩ := Pixman.Props.C05.initRects_exact Pixman.Region.c32 (by decide) (by decide) boxes hr
+  obtain ⟨b1, b2, b3⟩ := Pixman.Props.C05.intersectRect_exact Pixman.Region.c32
+    (Pixman.Region.initRects Pixman.Region.c32 boxes).1 (Pixman.Region.initRects Pixman.Region.c32 boxes).1
+    0 0 img.width img.height a2
+  have hbox : Pixman.Region.rectBox Pixman.Region.c32 0 0 img.width img.height =
+      ⟨0, 0, 0 + img.width, 0 + img.height⟩ :=
+    Pixman.Region.rectBox_inRange Pixman.Region.c32 (by decide) 0 0 img.width img.height (by decide)
+      (by decide) (by simp only [Pixman.Region.Cfg.max, Pixman.Region.c32]; omega)
+      (by simp only [Pixman.Region.Cfg.max, Pixman.Region.c32]; omega)
+  have hbm : ∀ x y : Int, (Pixman.Region.rectBox Pixman.Region.c32 0 0 img.width img.height).Mem x y ↔
+      (0 ≤ x ∧ x < img.width ∧ 0 ≤ y ∧ y < img.height) := by
+    intro x y; rw [hbox]; simp only [Pixman.Region.Box.Mem]; omega
+  unfold fillRegion
+  simp only [a1, b1, Bool.not_true, Bool.false_eq_true, if_false]
+  cases hc : img.clip with
+  | none =>
+    refine ⟨_, rfl, b2, ?_⟩
+    intro x y
+    rw [b3 x y, a3 x y, hbm x y]
+    constructor
+    · rintro ⟨h1, h2⟩; exact ⟨h1, h2, fun c hcc => by cases hcc⟩
+    · rintro ⟨h1, h2, _⟩; exact ⟨h1, h2⟩
+  | some c =>
+    have hcan := hclip c hc
+    obtain ⟨c1, c2, c3⟩ := Pixman.Props.C05.intersect_exact false
+      (Pixman.Region.intersectRect Pixman.Region.c32 (Pixman.Region.initRects Pixman.Region.c32 boxes).1
+        (Pixman.Region.initRects Pixman.Region.c32 boxes).1 0 0 img.width img.height).1
+      (Pixman.Region.intersectRect Pixman.Region.c32 (Pixman.Region.initRects Pixman.Region.c32 boxes).1
+        (Pixman.Region.initRects Pixman.Region.c32 boxes).1 0 0 img.width img.height).1 c b2 hcan
+      (fun e => by cases e)
+    simp only [c1, Bool.not_true, Bool.false_eq_true, if_false]
+    refine ⟨_, rfl, c2, ?_⟩
+    intro x y
+    rw [c3 x y, b3 x y, a3 x y, hbm x y]
+    constructor
+    · rintro ⟨⟨h1, h2⟩, h3⟩; exact ⟨h1, h2, fun c' hcc => by cases hcc; exact h3⟩
+    · rintro ⟨h1, h2, h3⟩; exact ⟨⟨h1, h2⟩, h3 c rfl⟩
+
+/-! ## colours -/
+
+/-- `color_to_pixel` accepts exactly the twelve listed formats -/
+theorem colorToPixel_accepts (c : Color) (format : Nat) :
+    (colorToPixel c format).isSome = acceptedFormats.contains format := by
+  unfold colorToPixel
+  by_cases h : acceptedFormats.contains format = true
+  · have hm : format ∈ acceptedFormats := List.contains_iff_mem.1 h
+    have hf : formatType format ≠ TYPE_RGBA_FLOAT := by
+      simp only [acceptedFormats, List.mem_cons, List.not_mem_nil, or_false] at hm
+      rcases hm with rfl | rfl | rfl | rfl | rfl | rfl | rfl | rfl | rfl | rfl | rfl | rfl <;> decide
+    simp only [hf, h, if_false, Bool.not_true, Bool.false_eq_true, Option.isSome_some]
+  · have h' : acceptedFormats.contains format = false := by
+      cases hh : acceptedFormats.contains format <;> simp_all
+    by_cases hf : formatType format = TYPE_RGBA_FLOAT
+    · simp only [hf, if_true, Option.isSome_none, h']
+    · simp only [hf, if_false, h', Bool.not_false, if_true, Option.isSome_none]
+
+/-- the accepted formats have the depths the fills support (or 1 bpp: only `fast_path_fill`) -/
+theorem acceptedFormats_bpp : ∀ f ∈ acceptedFormats, formatBpp f = 32 ∨ formatBpp f = 16 ∨
+    formatBpp f = 8 ∨ formatBpp f = 1 := by decide
+
+example : (colorToPixel ⟨0xffff, 0x8000, 0, 0xffff⟩ PIXMAN_r5g6b5) = some 0xfc00 ∧
+    (colorToPixel ⟨0xffff, 0x8000, 0, 0xffff⟩ PIXMAN_a8b8g8r8) = some 0xff0080ff ∧
+    (colorToPixel ⟨0xffff, 0x8000, 0, 0xffff⟩ PIXMAN_b8g8r8a8) = some 0x0080ffff ∧
+    (colorToPixel ⟨0, 0, 0, 0x8000⟩ PIXMAN_a1) = some 1 ∧
+    (colorToPixel ⟨0, 0, 0, 0x8000⟩ (pixmanFormat 32 TYPE_ARGB 2 10 10 10)) = none := by decide
+
+/-- a pixel index lies in one of the rectangles of the list -/
+def InRects (img : Image) (rects : List Pixman.Region.Box) (p : Int) : Prop :=
+  ∃ r ∈ rects, InRect img.bits img.rowstride (formatBpp img.format) r.x1 r.y1 (r.x2 - r.x1).toNat
+    (r.y2 - r.y1).toNat p
+
+/-- the loop over the rectangles of the fill region: when it reports success, exactly the pixels
+of the rectangles hold `pixel` narrowed to the depth, every other bit is unchanged -/
+theorem fillRects_exact (al : Int) (hal : (4 : Int) ∣ al) (chain : List Impl) (img : Image)
+    (pixel : Nat) (rects : List Pixman.Region.Box) (m : Mem)
+    (hr : (fillRects al chain img pixel rects m).1 = true) (i : Int) :
+    (InRects img rects (i / (formatBpp img.format : Int)) →
+      (fillRects al chain img pixel rects m).2.bit i =
+        pixel.testBit (i % (formatBpp img.format : Int)).toNat) ∧
+    (¬ InRects img rects (i / (formatBpp img.format : Int)) →
+      (fillRects al chain img pixel rects m).2.bit i = m.bit i) := by
+  induction rects generalizing m with
+  | nil =>
+    exact ⟨fun ⟨r, hr', _⟩ => absurd hr' (by simp), fun _ => rfl⟩
+  | cons r rest ih =>
+    unfold fillRects at hr ⊢
+    simp only [] at hr ⊢
+    by_cases h1 : (pixmanFill al chain m img.bits img.rowstride (formatBpp img.format) r.x1 r.y1
+        (r.x2 - r.x1).toNat (r.y2 - r.y1).toNat pixel).1 = true
+    · rw [if_pos h1] at hr ⊢
+      have F := pixmanFill_true_exact al hal chain m img.bits img.rowstride (formatBpp img.format)
+        r.x1 r.y1 (r.x2 - r.x1).toNat (r.y2 - r.y1).toNat pixel h1 i
+      obtain ⟨ih1, ih2⟩ := ih _ hr
+      constructor
+      · rintro ⟨r', hr', hin⟩
+        by_cases hq : InRects img rest (i / (formatBpp img.format : Int))
+        · exact ih1 hq
+        · rw [ih2 hq]
+          rcases List.mem_cons.1 hr' with rfl | hmem
+          · exact F.1 hin
+          · exact absurd ⟨r', hmem, hin⟩ hq
+      · intro hn
+        have hq : ¬ InRects img rest (i / (formatBpp img.format : Int)) :=
+          fun ⟨r', hr', hin⟩ => hn ⟨r', List.mem_cons_of_mem _ hr', hin⟩
+        rw [ih2 hq]
+        exact F.2 (fun hin => hn ⟨r, List.mem_cons_self, hin⟩)
+    · rw [if_neg h1] at hr; cases hr
+
+/-- **the direct-fill shortcut of pixman_image_fill_boxes** (after the operator reduction the
+operator is SRC, `color_to_pixel` accepts the format, the chain fills the depth): the call returns
+TRUE and the memory is the old one with exactly the pixels of (boxes ∩ image bounds ∩ clip)
+— see `fillRegion_exact` — set to `color_to_pixel (colour)`; nothing else changes -/
+theorem fillBoxes_shortcut_exact (al : Int) (hal : (4 : Int) ∣ al) (chain : List Impl) (op : Nat)
+    (img : Image) (color : Color) (boxes : List Pixman.Region.Box) (m : Mem) (pixel : Nat)
+    (reg : Pixman.Region.Region)
+    (hop : (reduceOp op color).1 = OP_SRC)
+    (hpix : colorToPixel (reduceOp op color).2 img.format = some pixel)
+    (hreg : fillRegion img boxes = some reg)
+    (hfill : (fillRects al chain img pixel reg.rects m).1 = true) :
+    ∃ m', fillBoxes al chain op img color boxes m = some (true, m') ∧
+      ∀ i : Int,
+        (InRects img reg.rects (i / (formatBpp img.format : Int)) →
+          m'.bit i = pixel.testBit (i % (formatBpp img.format : Int)).toNat) ∧
+        (¬ InRects img reg.rects (i / (formatBpp img.format : Int)) → m'.bit i = m.bit i) := by
+  refine ⟨(fillRects al chain img pixel reg.rects m).2, ?_, fillRects_exact al hal chain img pixel
+    reg.rects m hfill⟩
+  unfold fillBoxes
+  generalize reduceOp op color = rc at hop hpix ⊢
+  obtain ⟨op', c'⟩ := rc
+  simp only [] at hop hpix
+  simp only [hop, hpix, hreg, hfill, if_true]
+
+/-- when `pixman_fill` declines (no implementation fills the depth: d1db8ab) or the format is not
+one `color_to_pixel` accepts, `pixman_image_fill_boxes` composites the solid over each box -/
+theorem fillBoxes_fallback (al : Int) (chain : List Impl) (op : Nat) (img : Image) (color : Color)
+    (boxes : List Pixman.Region.Box) (m : Mem)
+    (h : (reduceOp op color).1 ≠ OP_SRC ∨ colorToPixel (reduceOp op color).2 img.format = none) :
+    fillBoxes al chain op img color boxes m =
+      match fmtOfCode img.format with
+      | none => none
+      | some f =>
+        (boxes.foldlM (init := m) fun m b =>
+          compositeBox img f (reduceOp op color).1 ((reduceOp op color).2.alpha = 0xffff)
+            (colorToUint32 (reduceOp op color).2) b m).map fun m => (true, m) := by
+  unfold fillBoxes
+  generalize reduceOp op color = rc at h ⊢
+  obtain ⟨op', c'⟩ := rc
+  simp only [] at h
+  rcases h with h | h
+  · simp only [if_neg h]; rfl
+  · by_cases h1 : op' = OP_SRC
+    · simp only [h1, h, if_true]; rfl
+    · simp only [if_neg h1]; rfl
 
 /-- `pixman_image_fill_rectangles` hands `pixman_image_fill_boxes` the boxes
 `(x, y, x + width, y + height)` in the same order -/
